@@ -3,6 +3,7 @@ import Moyo.Model.HNF
 import Moyo.Model.NFSpec
 import Moyo.Model.Hall
 import Moyo.Model.DriverC14
+import Moyo.Model.DriverC16
 import Moyo.Model.DriverPipe
 import Moyo.Model.DriverC07
 import Moyo.Model.DriverStage
@@ -139,6 +140,7 @@ def handlers : List (String → Option String) := [
   Moyo.DriverPipe.step?,
   Moyo.DriverStage.step?,
   Moyo.DriverC14.step?,
+  Moyo.DriverC16.step?,
   Moyo.DriverC19.step?,
   Moyo.DriverC20.step?,
   Moyo.DriverMag.step?,
